@@ -20,7 +20,7 @@ CHECK = MixedCheck(
     prop='C06', profile=profile,
     monitors=lambda: [Registry(), PositionCycles(('C06',))],
     tiers={'quick': 1500, 'thorough': 40_000},
-    ops_profile={'spot_plain_sells': False}, ops_tiers={'quick': 2000, 'thorough': 60_000},
+    ops_profile={'spot_plain_sells': False, 'weights': {'boundary': 0.05}}, ops_tiers={'quick': 2000, 'thorough': 60_000},
     nontrivial=lambda r: r['counters'].get('c06_trades_checked', 0) > 0,
     ops_nontrivial=lambda r: r['counters'].get('c06_trades_checked', 0) > 0,
     rule=('session runs (multi-point entries, partial take-profits, stop resized or deliberately not resized after a reduction, '
